@@ -455,6 +455,10 @@ func (e *Ev) heapMapGet(m VMapRef, key Val, n ast.Node) (val Val, has Term) {
 	case m.Kind == "int":
 		return VInt{sIte(has, raw, "0")}, has
 	}
+	if !e.contract && m.V != nil {
+		// the contents of values of this kind are not modelled: some value of the type
+		return fx.fresh(m.V, "mv"), has
+	}
 	return VOpaque{}, has
 }
 
@@ -979,6 +983,8 @@ func (e *Ev) evHeapGhost(name string, x *ast.CallExpr) (Val, bool) {
 			for _, r := range refs {
 				ne = append(ne, sNot(sEq(p, r)))
 			}
+			// objects that existed at entry only: what the call allocated is not "another object changed"
+			ne = append(ne, sLe(p, e.fx.allocTerm(e.oldEv.st)))
 			cs = append(cs, fmt.Sprintf("(forall ((%s Int)) (=> %s (= (select %s %s) (select %s %s))))", p, sAnd(ne...), cur, p, old, p))
 		}
 		return VBool{sAnd(cs...)}, true
@@ -990,8 +996,25 @@ func (e *Ev) evHeapGhost(name string, x *ast.CallExpr) (Val, bool) {
 		}
 		var cs []Term
 		var keys []string
-		for key := range e.fx.heapSort {
-			keys = append(keys, key)
+		if len(x.Args) == 1 {
+			// onlyfresh("KEY KEY ..."): the statement restricted to the named locations
+			bl, ok := x.Args[0].(*ast.BasicLit)
+			if !ok || bl.Kind != token.STRING {
+				e.unsupp(x, "onlyfresh takes a string of location names")
+			}
+			ks, _ := strconv.Unquote(bl.Value)
+			for _, k := range strings.Fields(ks) {
+				srt := e.fx.prog.heapKeySort(k)
+				if srt == "" {
+					e.unsupp(x, "onlyfresh names an unknown heap location %s", k)
+				}
+				e.fx.heapInitial(k, srt)
+				keys = append(keys, k)
+			}
+		} else {
+			for key := range e.fx.heapSort {
+				keys = append(keys, key)
+			}
 		}
 		sort.Strings(keys)
 		a0 := e.fx.allocTerm(e.oldEv.st)
@@ -1013,6 +1036,26 @@ func (e *Ev) evHeapGhost(name string, x *ast.CallExpr) (Val, bool) {
 			cs = append(cs, fmt.Sprintf("(forall ((%s Int)) (! (=> (<= %s %s) (= (select %s %s) (select %s %s))) :pattern ((select %s %s))))", p, p, a0, cur, p, old, p, cur, p))
 		}
 		return VBool{sAnd(cs...)}, true
+	case "asref":
+		// asref(x, "Elem"): the integer x read as a reference to an Elem object
+		if len(x.Args) != 2 {
+			e.unsupp(x, "asref(x, \"Elem\")")
+		}
+		bl, ok := x.Args[1].(*ast.BasicLit)
+		if !ok || bl.Kind != token.STRING {
+			e.unsupp(x, "asref needs the element type as a string literal")
+		}
+		en, _ := strconv.Unquote(bl.Value)
+		if e.fx.prog.structByName(en) == nil {
+			e.unsupp(x, "asref names an unknown struct type %s", en)
+		}
+		switch v := e.ev(x.Args[0]).(type) {
+		case VInt:
+			return VRef{v.T, en}, true
+		case VRef:
+			return VRef{v.T, en}, true
+		}
+		e.unsupp(x, "asref needs an integer")
 	case "written":
 		return VBool{e.fx.hgetScalar(e.st, "$written", sortBool)}, true
 	}
